@@ -11,7 +11,7 @@ use crate::with_spec;
 
 pub const RULE: &str = "(specification, conformant forest biased to depth >= 3 and to masters that are the last child of their parent) × EVERY subset U of its master instances encoded with unknown size \
 when there are <= 8 masters (64 tape-chosen subsets otherwise); each (forest, U) is encoded twice — by the real TagWriter (8-byte all-ones marker) and by the reference encoder with all-ones sizes of width 1-8 — \
-and read with the strict iterator. Oracle: the item sequence (with the position of every End) equals flatten(forest), i.e. the all-known-size reading, with no error. Each (forest, U, encoder) is one evaluation. \
+and read with the strict iterator and with one generated non-empty set of tolerated error classes (the closing rule is not a matter of tolerance). Oracle: the item sequence (with the position of every End) equals flatten(forest), i.e. the all-known-size reading, with no error. Each (forest, U, encoder) is one evaluation. \
 Non-trivial: some master in U is the last child of a master that is also in U (its End is caused by a higher-level element, an enclosing known-size extent or EOF); distinct by (document bytes).";
 
 pub const ASSUMPTIONS: &[&str] = &[
@@ -62,6 +62,10 @@ fn stage(i: &Input, c: &mut Case) -> Result<(), String> {
         v
     };
     let wsel: Vec<u8> = (0..5).map(|_| 1 + t.below(8) as u8).collect();
+    // the closing rule does not depend on what the reader is told to tolerate: one non-strict configuration per case reads every
+    // encoding as well (a valid document has nothing to tolerate, so the items must be the same)
+    let tol_extra = 1 + t.below(7) as u8;
+    let cfg_tol = ReadCfg { tolerate: tol_extra, ..ReadCfg::strict() };
     let mut units = 0u64;
     let mut nontrivial = 0u64;
     let mut sample: Option<String> = None;
@@ -84,6 +88,10 @@ fn stage(i: &Input, c: &mut Case) -> Result<(), String> {
             })?;
             units += 1;
             nontrivial += nt as u64;
+            let obs = read_all::<T>(&bytes, &cfg_tol);
+            expect_exact(&obs, &flat, "unknown-size subset written by TagWriter, read with tolerated error classes").map_err(|e| {
+                format!("{}\n  tolerated {:03b}\n  doc: {}\n  observed: {}\n  bytes: {}", e, tol_extra, render_forest(&forest), render_obs(&obs), hex(&bytes[..bytes.len().min(160)]))
+            })?;
             // reference encoder: all-ones in widths 1..8
             set_subset(&mut forest, mask, &wsel);
             let (rb, _) = ref_encode(&forest);
@@ -93,10 +101,14 @@ fn stage(i: &Input, c: &mut Case) -> Result<(), String> {
             })?;
             units += 1;
             nontrivial += nt as u64;
+            let obs = read_all::<T>(&rb, &cfg_tol);
+            expect_exact(&obs, &flat, "unknown-size subset encoded by the reference encoder, read with tolerated error classes").map_err(|e| {
+                format!("{}\n  tolerated {:03b}\n  doc: {}\n  observed: {}\n  bytes: {}", e, tol_extra, render_forest(&forest), render_obs(&obs), hex(&rb[..rb.len().min(160)]))
+            })?;
             if nt && sample.is_none() && c.want_sample {
                 sample = Some(format!("spec {} | {}", spec_brief(spec.table()), render_forest(&forest)));
             }
-            c.checks += 2 * flat.len() as u64;
+            c.checks += 4 * flat.len() as u64;
         }
     });
     c.units = units.max(1);
